@@ -48,3 +48,12 @@ static int ref_indeg(const int *g, int c, const int *p, int f)
 }
 static int ref_from_memory(const int *g, int c, const int *p, int f, int *co)
 { (void)g; if (c == REF_CLS_T && f == T_A && p[0] == 0) { co[0] = p[0]; co[1] = p[1]; return 1; } return 3; }
+
+/* run the real generated internal_init of every class (sets the key min/range fields, repositories) */
+static __parsec_tree_T_task_t ref_init_task_T;
+static __parsec_tree_S_task_t ref_init_task_S;
+static void ref_init_all(REF_TP_T *tp)
+{
+    ref_init_task_T.taskpool = (parsec_taskpool_t *)tp; tree_T_internal_init(NULL, &ref_init_task_T);
+    ref_init_task_S.taskpool = (parsec_taskpool_t *)tp; tree_S_internal_init(NULL, &ref_init_task_S);
+}
